@@ -5,7 +5,7 @@ when the file has no entry) and `_loaded_as_default` says whether that entry car
 that reading "the file on disk is exactly what saving would write" is, per option: no entry in the file <=> the
 option writes nothing; an entry <=> the option's value equals it and its marker equals the entry's marker."""
 from pyvc.dsl import (contract, invariant, inline, ite, is_tuple, is_none, is_int, is_str, is_instance, forall_int,
-                      exists_int, uf, old, klass, field)
+                      exists_int, uf, old, klass, field, fs_exists, fs_trace)
 from contracts.kschema import EV, BV, SV, VIS, SEL, W2C, FORCED
 from contracts.c_render import CFGLINE, MARK, CACHES
 from esp_kconfiglib.core import BOOL, STRING, INT, HEX, FLOAT, UNKNOWN
@@ -14,6 +14,7 @@ MM = "esp_menuconfig.model"
 
 klass("MenuConfigState", 20, MM, fields={
     "kconf": field("ref:Kconfig", "imm"),
+    "conf_filename": field("str", "imm"),
 }, props=[], methods=["needs_save"])
 
 
@@ -41,5 +42,6 @@ class C_needs_save:
     def ensures_dirty_means_different(self, result):
         # reported dirty => the file has an unknown entry or some option's entry differs from what would be written
         k = self.kconf
-        return (not result) or len(k.missing_syms) != 0 or exists_int(
-            0, len(k.unique_defined_syms), lambda j: not entry_matches(k.unique_defined_syms[j]))
+        # (or there is no file at all yet: saving creates it)
+        return ((not result) or len(k.missing_syms) != 0 or not fs_exists(self.conf_filename, len(fs_trace()))
+                or exists_int(0, len(k.unique_defined_syms), lambda j: not entry_matches(k.unique_defined_syms[j])))
